@@ -369,7 +369,7 @@ def _corr_generic(cmd, prop, model_text, per_quick, per_thorough, shards_quick=8
         shards, per = (shards_quick, per_quick) if tier == "quick" else (shards_thorough, per_thorough)
 
         def gen(i):
-            out = os.path.join(wd, "cases_%s_%d.v" % (prop, i))
+            out = os.path.join(wd, "cases_%s_%s_%d.v" % (prop, cmd, i))
             p = run([hbin, cmd, "--seed", str(seed), "--from", str(i * per), "--to", str((i + 1) * per), "--out", out], timeout=900)
             return out, json.loads(p.stdout.strip().splitlines()[-1])
 
@@ -388,6 +388,20 @@ def _corr_generic(cmd, prop, model_text, per_quick, per_thorough, shards_quick=8
             else:
                 bad += [{"file": r["file"], "case": i} for i in r["bad"]]
         return dict(tot, model=model_text, disagreements=len(bad)), bad
+    return corr
+
+
+def _corr_multi(*corrs):
+    """Several correspondence checks for one property: counts are kept per model, disagreements are pooled."""
+    def corr(hbin, wd, tier, seed):
+        infos, bad = [], []
+        for c in corrs:
+            i, b = c(hbin, wd, tier, seed)
+            infos.append(i)
+            bad += b
+        return {"model": " ; ".join(i.get("model", "") for i in infos), "parts": infos,
+                "disagreements": sum(i.get("disagreements", 0) for i in infos),
+                "cases": sum(i.get("cases", 0) for i in infos)}, bad
     return corr
 
 
@@ -436,7 +450,12 @@ def check_C01(tier, seed, replay=None):
 def check_C04(tier, seed, replay=None):
     corr = _corr_generic("aggcases", "C04", "Agg.group_labels / assign_groups / aggregate (count table) + Select.select_step vs the engine "
                          "on count by/without (labels) (selector)", 14, 120, shards_quick=16)
-    return ref_family_check("C04", tier, seed, [("agg", 4000), ("epoch:agg", 500)], [("agg", 80000), ("noties", 20000), ("epoch:agg", 10000)], corr=corr)
+    corr2 = _corr_generic("topkcases", "C04", "Topk.topk_step (per-group bounded selection with NaN lowest, k per query, grouping by Agg.assign_groups) "
+                          "on the operand stream of the engine's own operator tree vs the engine's result for topk/bottomk "
+                          "[by|without] (k, selector) on primitive floats; cases with a tie inside a group are skipped", 40, 400,
+                          shards_quick=8, shards_thorough=32)
+    return ref_family_check("C04", tier, seed, [("agg", 4000), ("epoch:agg", 500)], [("agg", 80000), ("noties", 20000), ("epoch:agg", 10000)],
+                            corr=_corr_multi(corr, corr2))
 
 
 def check_C05(tier, seed, replay=None):
